@@ -160,14 +160,14 @@ def run_tightcap(case, r, rng):
         sol = ode.explicit_euler(op, x0t, list(steps), threshold=0, max_rank=cap, normalize=0, progress=False)
         compare_traj(r, 'explicit_euler:tight-cap', sol, want, x0t, dims)
     # linearity: a state of tiny norm (1e-11) under the implicit schemes with the default relative threshold of the inner solver
-    sc_ = 1e-11
-    xt = sc_ * x0t
     guess = tt_from(rand_cores(rng, dims, [1] * d, max_ranks(dims), c))
     wi = [x0]; wt = [x0]
     for hk in steps:
         wi.append(np.linalg.solve(I - hk * A, wi[-1]))
         wt.append(np.linalg.solve(I - 0.5 * hk * A, (I + 0.5 * hk * A) @ wt[-1]))
-    for tsolver in ('als', 'mals'):
+    # (also 1e-15: ||A x|| itself falls below the default threshold value 1e-12 -- a small state is not a stationary state)
+    for tsolver, sc_ in (('als', 1e-11), ('mals', 1e-11), ('als', 1e-15), ('mals', 1e-15)):
+        xt = sc_ * x0t
         with r.op('implicit_euler:tiny-state:call'):
             sol = ode.implicit_euler(op, xt, guess, list(steps), tt_solver=tsolver, normalize=0, progress=False)
             for k_ in range(1, len(sol)):
